@@ -72,12 +72,13 @@ def worker_environment(ctx) -> None:
         adds = [c_ for c_ in ast.walk(gre.node) if isinstance(c_, ast.Call) and isinstance(c_.func, ast.Attribute) and c_.func.attr in ("append", "insert")
                 and any(norm(a_) == pv for a_ in c_.args)] + [e_ for e_ in sl_ if pv in names_in(e_)]
         rets = [r_ for r_ in stmts(gre.node) if isinstance(r_, ast.Return) and r_.value is not None]
-        okg = bool(adds) and bool(rets) and norm(rets[-1].value) == norm(stores[0].targets[0].value)
+        okg = bool(adds) and any(norm(r_.value) == norm(stores[0].targets[0].value) and GS.cfg.reachable(GS.cfg.node(stores[0]), [GS.cfg.node(r_)]) for r_ in rets)
     r5.instance(gre.short)
     r5.check(okg, "get_ray_runtime_env returns the user's runtime_env with the driver's package directory added to py_modules", gre, gre.node,
              "get_ray_runtime_env no longer returns a runtime_env whose py_modules contains the directory of the running package", stmt="py_modules")
     for name in ("ray_init", "ray_init_cluster"):
-        f = idx.function(PAR, name)
+        from ..sem import inline_private_helpers
+        f = inline_private_helpers(idx, idx.function(PAR, name))
         S = Sem(idx, f)
         inits = [c_ for c_ in ast.walk(f.node) if isinstance(c_, ast.Call) and call_name(c_) == "ray.init"]
         if not r5.expect(len(inits) == 1 and len(inits[0].keywords) == 1 and inits[0].keywords[0].arg is None and isinstance(inits[0].keywords[0].value, ast.Name),
